@@ -373,6 +373,9 @@ class eval_new_ctx(_ApiSpec):
         g["EvalMainContext"] = Model(lambda eng, a, k, n: ObjVal("EvalMainContext", resolved_references=Opaque("rr")), "EvalMainContext")
         g["EvalContext"] = Model(self.m_EvalContext, "EvalContext")
         g["_accepted_packages"] = Opaque("_accepted_packages")
+        # the loop that selects, among the collected paths, those whose blob is in the store (only these are committed)
+        for ordinal in (0, 1, 2):
+            self.loops[ordinal] = LoopSpec(invariant=self.commit_filter_inv)
         g["introspect_indirect"] = Model(self.analysis("introspect_indirect", lambda eng: Opaque("inters_indirect")), "introspect_indirect")
         g["introspect"] = Model(self.analysis("introspect", self.mk_inters), "introspect")
         g["FunctionIndirectInteractionUtils"] = ObjVal("FIIU")
@@ -480,6 +483,20 @@ class eval_new_ctx(_ApiSpec):
             ("store_invariant_preserved", INV(st1.blobs)),
         ]
 
+    def commit_filter_inv(self, ctx, env, k):
+        """after k of the collected paths: committed_paths holds exactly those of them whose blob is in the store, each with
+        its collected signature"""
+        sp = ctx.eng.st.ghost_store_paths
+        cm = env["committed_paths"]
+        blobs = ctx.globals["__store__"].blobs
+        q = z3.Const(sv.fresh_name("q"), PATH.sort())
+        j = z3.Int(sv.fresh_name("j"))
+        seen = z3.Exists([j], z3.And(0 <= j, j < k, sp.keys[j] == q))
+        return [
+            ("selected_so_far", z3.ForAll([q], cm.has(q) == z3.And(seen, blobs.has(sp.get(q))))),
+            ("with_their_collected_signature", z3.ForAll([q], z3.Implies(cm.has(q), cm.get(q) == sp.get(q)))),
+        ]
+
     def ensures(self, ctx):
         ev = ctx.events
         k = kinds(ev)
@@ -514,7 +531,11 @@ class eval_new_ctx(_ApiSpec):
             synced = ev[isync].data["paths"]
             out.append(("commit_is_last_effect", all(x not in ("user_call", "store_blob") for x in k[isync + 1 :]) and n_sync == 1))
             out.append(("commit_after_root_evaluated", ("user_call" in k[:isync]) or ("fetch_blob" in k[:isync])))
-            out.append(("commits_exactly_the_collected_paths", sp is not None and z3.And(synced.dom == sp.dom, synced.val == sp.val)))
+            # what is committed: the collected paths whose blob is in the store, each with its collected signature -- a path
+            # is never pointed to a blob that does not exist (a keep that was analysed but not executed produces none)
+            q_ = z3.Const(sv.fresh_name("q"), PATH.sort())
+            out.append(("commits_exactly_the_collected_paths", sp is not None and z3.ForAll([q_], z3.And(synced.has(q_) == z3.And(sp.has(q_), st1.blobs.has(sp.get(q_))), z3.Implies(synced.has(q_), synced.get(q_) == sp.get(q_))))))
+            out.append(("commit_points_only_to_present_blobs", z3.ForAll([q_], z3.Implies(synced.has(q_), st1.blobs.has(synced.get(q_))))))
             out.append(("paths_overridden_by_collected", map_is_override(st1.paths, st0.paths, synced)))
         if n_store:
             sb = [e for e in ev if e.kind == "store_blob"][0]
